@@ -48,6 +48,13 @@ def gen(rng, i, tier):
         elif t and r_upd < 0.40:             # new values for existing terms: same number of terms, degree and variables
             upd = [(k, G.coef(rng)) for k in {rng.choice(t)[0] for _ in range(rng.randint(1, 2))}]
         warm = rng.random() < 0.4            # history: convert, edit (upd), convert again -- the second result is observed
+        pre = []
+        if warm and t and rng.random() < 0.3:
+            # same keys, one coefficient replaced by a different number with the same hash() (-1 and -2 in CPython): nothing a
+            # conversion remembered under a hash of the items may be taken for the current model
+            k = max(t, key=lambda kv: (len(set(kv[0])), rng.random()))[0] if rng.random() < 0.6 else rng.choice(t)[0]
+            a, b = rng.choice([(F(-1), F(-2)), (F(-2), F(-1))])
+            pre, upd = [(k, a)], [(k, b)]
         meth = rng.randrange(4)
         deg = rng.choice([None, 2, 2, 2, 3, 3, 4]) if meth in (0, 3) else None
         if rng.random() < 0.04 and meth in (0, 3):
@@ -69,13 +76,15 @@ def gen(rng, i, tier):
                 if other:
                     pairs.append([C.enc(rng.choice(other)), C.enc(labs[0])])
         return {"kind": kind, "terms": G.jraw(t), "upd": G.jraw(upd), "meth": meth, "deg": deg, "lam": lam, "pairs": pairs,
-                "warm": warm}
+                "warm": warm, "remap": c04_remap(rng), "pre": G.jraw(pre)}
     finally:
         G.DYADIC_ONLY = False
 
 
 def build(case):
     m = cls_of(case["kind"])({k: C.num(v) for k, v in G.unjraw(case["terms"])})
+    for k, v in G.unjraw(case.get("pre", [])):
+        m[k] = C.num(v)
     if case.get("warm"):
         # every conversion once before the edit: whatever a conversion may remember must not survive the edit
         for meth, kw in (("to_qubo", {}), ("to_quso", {}), ("to_pubo", {"deg": case["deg"]}), ("to_puso", {"deg": case["deg"]})):
@@ -86,6 +95,16 @@ def build(case):
     for k, v in G.unjraw(case["upd"]):
         m[k] = C.num(v)
     return m
+
+
+def c04_mp_lit(installed):
+    from props import c04
+    return c04.mp_lit(installed)
+
+
+def c04_remap(rng):
+    from props import c04
+    return c04.gen_remap(rng)
 
 
 def py_lam(lam):
@@ -106,18 +125,20 @@ def call(M, case):
 
 
 def run_impl(case):
+    from props import c04
     M = build(case)
+    installed = c04.apply_remap(M, case.get("remap"))       # a user-chosen numbering (set_mapping / set_reverse_mapping)
     snap = C.snapshot(M)
     try:
         D = call(M, case)
     except (KeyError, ValueError, TypeError) as ex:
-        return {"error": type(ex).__name__}
+        return {"error": type(ex).__name__, "remap": installed}
     if C.snapshot(M) != snap:
         raise C.PurityError("%s mutated the model" % METH[case["meth"]])
     out = {"kind": type(D).__name__, "terms": C.jterms(C.enc_terms(D)),
            "n": M.num_binary_variables, "mapping": [[C.enc(k), v] for k, v in M.mapping.items()],
            "degree": (None if M.degree == -float("inf") else int(M.degree)),
-           "src": C.jterms(C.enc_terms(M, sort_keys=False))}
+           "src": C.jterms(C.enc_terms(M, sort_keys=False)), "remap": installed}
     # the implementation's own convert_solution on assignments of D's variables (model variables 0..n-1 and ancillas), with
     # the spin flag and -- where the values themselves tell the form -- without it
     n = M.num_binary_variables
@@ -147,9 +168,10 @@ def lam_lit(lam):
 
 def literal(case, out):
     tl = lambda j: C.termsl([(k, F(v[0], v[1])) for k, v in j])
-    cin = "{| d_kind := %s; d_terms := %s; d_upd := %s; d_meth := %d%%nat; d_deg := %s; d_lam := %s; d_pairs := [%s] |}" % (
+    case = dict(case, upd=case.get("pre", []) + case["upd"])
+    cin = "{| d_kind := %s; d_terms := %s; d_upd := %s; d_meth := %d%%nat; d_deg := %s; d_lam := %s; d_pairs := [%s]; d_mp := %s |}" % (
         KIND[case["kind"]], tl(case["terms"]), tl(case["upd"]), case["meth"], C.optc(case["deg"], C.nat), lam_lit(case["lam"]),
-        "; ".join(C.keyl(p) for p in (case["pairs"] or [])))
+        "; ".join(C.keyl(p) for p in (case["pairs"] or [])), c04_mp_lit(out.get("remap")))
     exp = "OErr %s" % out["error"] if "error" in out else "OModelOut %s %s" % (KIND[out["kind"]], tl(out["terms"]))
     return "(%s, %s)" % (cin, exp)
 
@@ -265,4 +287,8 @@ def tags(case, out):
         t.append("ancillas:%d" % min(4, len({l for k, _ in out["terms"] for l in k if l >= out["n"]})))
     if case["upd"]:
         t.append("stale-model")
+    if case.get("pre"):
+        t.append("same-hash-coefficient-change")
+    if out.get("remap"):
+        t.append("remapped:" + case["remap"]["how"])
     return t
